@@ -62,6 +62,15 @@ def acceptedRaise (j : Journal) : Bool :=
    !j.any (fun e => match e.call with | .terminateInstances _ => true | _ => false) &&
    ((j.filter Spec.isAttachEntry).getLast?.map (·.ok)) == some true)
 
+def monitorsWant (c : Spec.Ctx) (obsDelta : Int) (j : Journal) (fatalHere : Bool) : List String :=
+  let unt : Int := Spec.untaintedCount c
+  let want : Int := if unt < c.st.minEff then c.st.minEff - unt else obsDelta
+  if c.dry then [] else
+  (if Spec.C07.orderHolds c j then [] else ["C07|order"]) ++
+  (if Spec.C07.reuseHolds c j then [] else ["C07|reuse"]) ++
+  (if Spec.C07.amountHolds c want j then [] else ["C07|amount", "C05|compose"]) ++
+  (if fatalHere then [] else (Spec.C06.bad c j).map (fun t => "C06|" ++ t))
+
 def monitors (c : Spec.Ctx) (j : Journal) (fatalHere : Bool) : List String :=
   ((Spec.C19.scanBad c j fatalHere).map (fun t => "C19|" ++ t)) ++
   (if Spec.C01.holds c j then [] else ["C01|" ++ ";".intercalate (Spec.C01.bad c j)]) ++
@@ -118,7 +127,9 @@ def handleScan (ds : DState) (sc : ScanCase) : DState × Json :=
           let stR : CState := { st with prov := match (refresh o 0 st.prov).val with | some p => p | none => st.prov }
           match ctxFor ds.ctl stR c sc with
           | none => []
-          | some ctx => (monitors ctx ob.j (sc.obs.outcome == "fatal:not-in-group" && (sc.obs.recs.getLast?.map (·.name)) == some ob.name)).map (fun m => match m.splitOn "|" with
+          | some ctx =>
+            let fatalHere := sc.obs.outcome != "ok" && (sc.obs.recs.getLast?.map (·.name)) == some ob.name
+            (monitors ctx ob.j (fatalHere && sc.obs.outcome == "fatal:not-in-group") ++ monitorsWant ctx ob.delta ob.j fatalHere).map (fun m => match m.splitOn "|" with
             | [p, d] => p ++ ":" ++ ob.name ++ ":" ++ d
             | _ => m ++ ":" ++ ob.name))
     -- C15 on the observed journals, paired with the recorded responses (ordered calls only)
